@@ -30,6 +30,42 @@ class Res(wiring.Component):
         super().__init__({})
 
 
+# Resource objects are arbitrary user components: their own notions of truth, length, equality and
+# hashing are theirs and must not leak into address lookups (which go by object identity).
+class FalsyLen(Res):
+    def __len__(self):
+        return 0
+
+
+class FalsyBool(Res):
+    def __bool__(self):
+        return False
+
+
+class ValEq(Res):
+    """All instances compare equal and hash alike (e.g. registers 'equal when width and access match')."""
+    def __eq__(self, other):
+        return isinstance(other, ValEq)
+
+    def __hash__(self):
+        return 7
+
+
+class EqRaises(Res):
+    """Like an Amaranth value: == does not return a bool usable for lookups."""
+    def __eq__(self, other):
+        raise TypeError("comparison is not defined")
+
+    __hash__ = object.__hash__
+
+
+ODD_CLASSES = [FalsyLen, FalsyBool, ValEq, ValEq, EqRaises, Res]
+
+
+def _make_res(n, odd):
+    return ODD_CLASSES[(n * 2654435761 >> 7) % len(ODD_CLASSES)]() if odd else Res()
+
+
 def _res_item():
     return st.tuples(st.just("res"), st.integers(0, 5), st.sampled_from(["imp", "imp", "align", "gap"]),
                      st.integers(0, 3)).map(list)
@@ -68,7 +104,11 @@ def _node(draw, dw, depth, min_al=0):
 def _spec(draw, tier):
     dw = draw(st.sampled_from([8, 16, 32, 32, 64]))
     depth = draw(st.sampled_from([1, 2, 2, 3, 3, 4]))
-    return {"root": draw(_node(dw, depth))}
+    return {"root": draw(_node(dw, depth)),
+            # resource objects with unusual truth value / equality / hashing
+            "odd_resources": draw(st.sampled_from([False, False, True])),
+            # lookups are also made while the tree is still being built (their answers must not stick)
+            "early_queries": draw(st.sampled_from([False, False, True]))}
 
 
 def strategy(tier):
@@ -136,7 +176,9 @@ def _populate(node, children, aw, counter, stats):
         counter[0] += 1
         if it[0] == "res":
             _, size, mode, k = it
-            r = node.setdefault("_objs", {}).setdefault(counter[0], None) or Res()
+            r = node.setdefault("_objs", {}).get(counter[0])
+            if r is None:
+                r = _make_res(counter[0], OPTS["odd"])
             node["_objs"][counter[0]] = r
             n = counter[0]
             name = [(f"r{n}",), (f"r{n}", n % 4), (f"r{n}", "f", "g")][n % 3]
@@ -149,6 +191,7 @@ def _populate(node, children, aw, counter, stats):
                 kw["addr"] = align_up(max(mm.align_to(0), node["hb"]) + k, max(node["al"], 3))
             s, e = mm.add_resource(r, name=name, size=size, **kw)
             b.local.append((r, (name,), s, e, node["dw"]))
+            _early(mm, b, r)
         else:
             _, cnode, kind, named, mode, k = it
             c = children[ci]; ci += 1
@@ -169,6 +212,7 @@ def _populate(node, children, aw, counter, stats):
                 raise Violation("C03/window-ratio", f"add_window returned ratio {ratio}, expected {exp_ratio}")
             stats.label(kind if kind != "same" else "ratio1")
             stats.label("named" if named else "anonymous")
+            _early(mm, b, None)
             for (r, path, s, e, width) in c.local:
                 gs = base + s // ratio
                 ge = gs + (e - s) // ratio
@@ -180,16 +224,71 @@ def _populate(node, children, aw, counter, stats):
     return b
 
 
+OPTS = {"odd": False, "early": False}
+
+
+def _early(mm, b, r):
+    """Queries on a map that is still being built (and is not frozen by them)."""
+    if not OPTS["early"]:
+        return
+    mm = _Lookups(mm)
+    top = 1 << mm.addr_width
+    for a in {0, 1, 2, 3, top - 1, top // 2, mm.align_to(0) % top, (mm.align_to(0) + 1) % top,
+              (mm.align_to(0) + (1 << mm.alignment)) % top, (2 * mm.align_to(0)) % top}:
+        mm.decode_address(a)
+    for _ in mm.all_resources():
+        pass
+    if r is not None:
+        mm.find_resource(r)
+    try:
+        mm.find_resource(Res())
+    except KeyError:
+        pass
+
+
+class _Lookups:
+    """The three lookups of a map; an exception other than find_resource's KeyError is a violation
+    (e.g. a TypeError out of a resource object's own __eq__ that a lookup had no business calling)."""
+    def __init__(self, mm):
+        self._mm = mm
+
+    def _call(self, name, *args):
+        try:
+            r = getattr(self._mm, name)(*args)
+            return list(r) if name == "all_resources" else r
+        except KeyError:
+            raise
+        except Exception as e:
+            raise Violation(f"C03/{name}-raises", f"{name}({', '.join(type(a).__name__ for a in args)}) raised "
+                            f"{type(e).__name__}: {e}")
+
+    def all_resources(self):
+        return self._call("all_resources")
+
+    def find_resource(self, r):
+        return self._call("find_resource", r)
+
+    def decode_address(self, a):
+        return self._call("decode_address", a)
+
+    def __getattr__(self, name):
+        return getattr(self._mm, name)
+
+
 def check(spec, stats):
     counter = [0]
     import copy
+    OPTS["odd"] = bool(spec.get("odd_resources"))
+    OPTS["early"] = bool(spec.get("early_queries"))
+    stats.label("odd_resource_objects", OPTS["odd"])
+    stats.label("queries_while_building", OPTS["early"])
     root = copy.deepcopy(spec["root"])
     try:
         b = _build(root, counter, stats)
     except ValueError:
         stats.label("refused_does_not_fit")
         return
-    mm = b.mm
+    mm = _Lookups(b.mm)
     sample_mode = mm.addr_width > MAX_ROOT_AW
     expected = sorted(b.local, key=lambda x: x[2])
     stats.label(f"depth>={min(b.depth, 3)}")
@@ -215,7 +314,8 @@ def check(spec, stats):
     foreign_map = MemoryMap(addr_width=4, data_width=8)
     foreign = Res()
     foreign_map.add_resource(foreign, name=("foreign",), size=1)
-    for obj in (Res(), foreign, object(), mm):
+    from amaranth import Signal
+    for obj in (Res(), foreign, object(), b.mm, ValEq(), FalsyLen(), EqRaises(), Signal(8)):
         try:
             i = mm.find_resource(obj)
         except KeyError:
